@@ -1268,7 +1268,16 @@ def g_bddh(rng):
             q = rng.choice([100, 101, 200, 201, 300, 0, 1])
             steps.append(f"final!{i}!{q}"); fblocks[fam[i]].add(block(q))
         elif c < 0.55:
-            steps.append(f"union!{i}!{j}")
+            if fam[i] != fam[j] and rng.random() < 0.4:
+                # caller-supplied PRE-FILLED maps (injective, disjoint images); keys among the small numbers loading hands out
+                ka = [q for q in range(0, 5) if rng.random() < 0.4]
+                kb = [q for q in range(0, 5) if rng.random() < 0.4]
+                vals = rng.sample(range(0, 9), len(ka) + len(kb))
+                ml = dict(zip(ka, vals[: len(ka)]))
+                mr = dict(zip(kb, vals[len(ka):]))
+                steps.append(f"unionpre!{i}!{j}!{map_tok(ml)}!{map_tok(mr)}")
+            else:
+                steps.append(f"union!{i}!{j}")
             if fam[i] == fam[j]:
                 # shared-table branch (a view of the same table) – or, when a member of the family is a trimming result with
                 # a table of its own, a fresh table with small numbers: cover both
